@@ -38,7 +38,7 @@ class C07(Check):
             'Non-trivial: a file whose queries touch a bit >= 32 or an alias; distinct by hash of definition+queries.')
     ASSUMPTIONS = ['file content in upper case, one label per bit, distinct labels per group (property domain)',
                    'negative numpy int64 values are read as their two\'s complement bit pattern']
-    REQUIRED_COUNTERS = ('queries_touching_bit63', 'alias_queries', 'keyerrors_expected_and_seen')
+    REQUIRED_COUNTERS = ('queries_touching_bit63', 'alias_queries', 'keyerrors_expected_and_seen', 'roundtrips_of_values_without_defined_bits')
 
     def setup(self):
         import pydl.pydlutils.sdss as S
@@ -101,7 +101,7 @@ class C07(Check):
             op = rng.choice(['val', 'val', 'name', 'name', 'name', 'exist', 'unknown'])
             gq = recase(rng, g)
             if op == 'val':
-                k = rng.choice([1, 1, 2, 3, len(labels), rng.randint(1, len(labels))])
+                k = rng.choice([1, 1, 2, 3, len(labels), rng.randint(1, len(labels)), 0])      # 0: the empty set of labels
                 sub = rng.sample(labels, min(k, len(labels)))
                 form = 'str' if len(sub) == 1 and rng.random() < 0.5 else 'list'
                 queries.append({'op': 'val', 'group': gq, 'labels': [recase(rng, l) for l in sub], 'form': form})
@@ -126,7 +126,7 @@ class C07(Check):
                 vt = rng.choice(['int', 'uint64', 'int64'])
                 queries.append({'op': 'name', 'group': gq, 'value': v, 'vtype': vt, 'concat': rng.random() < 0.25})
             elif op == 'exist':
-                sub = [recase(rng, l) for l in rng.sample(labels, min(len(labels), rng.randint(1, 3)))]
+                sub = [recase(rng, l) for l in rng.sample(labels, min(len(labels), rng.choice([0, 1, 1, 2, 3])))]
                 if rng.random() < 0.5:
                     sub.insert(rng.randint(0, len(sub)), 'ZZ_NOT_A_LABEL_' + str(rng.randint(0, 99)))
                 form = 'str' if len(sub) == 1 and rng.random() < 0.5 else 'list'
@@ -180,6 +180,8 @@ class C07(Check):
             lines.append(t)
             junk(lines)
         rows = []
+        # bit numbers as any decimal spelling of the integer: 7, 07, 007, +7
+        bitfmt = L.choice(['%d', '%d', '%02d', '%03d', '+%d'])
         for g, d in case['groups'].items():
             block = []
             if L.random() < 0.7:
@@ -187,7 +189,7 @@ class C07(Check):
             for l, b in d.items():
                 desc = L.choice(['x', 'some description', 'Bit %d of %s' % (b, g), ''])
                 struct = L.choice(['maskbits', 'maskbits', 'MASKBITS', 'Maskbits'])
-                row = '%s%s%s%s%d%s%s%s"%s"' % (struct, sp(), g, sp(), b, sp(), l, sp(), desc)
+                row = '%s%s%s%s%s%s%s%s"%s"' % (struct, sp(), g, sp(), bitfmt % b, sp(), l, sp(), desc)
                 if L.random() < 0.2:
                     row += sp() + '# trailing comment'
                 if L.random() < 0.15:
@@ -301,7 +303,8 @@ class C07(Check):
                     out.expect(names == expn, 'flagname', 'names of defined set bits in ascending bit order',
                                got=names, exp=expn, query=q)
                 # value -> names -> value on defined bits
-                if names == expn and names:
+                if names == expn:
+                    out.count('roundtrips_of_values_without_defined_bits', not names)
                     v2 = int(S.sdss_flagval(q['group'], names))
                     defined = sum(1 << b for b in real.values())
                     out.expect(v2 == val & defined, 'value->names->value', 'got %d expected %d' % (v2, val & defined), query=q)
